@@ -468,13 +468,17 @@ func shape(d directives.Directive) *Violation {
 }
 
 func drawC07(t *rapid.T) C07Case {
-	src := rapid.SampledFrom([]string{"valid", "valid", "valid", "mutated", "mutated", "mutated", "soup", "bytes"}).Draw(t, "source")
+	src := rapid.SampledFrom([]string{"valid", "valid", "valid", "mutated", "mutated", "mutated", "soup", "bytes", "bom"}).Draw(t, "source")
 	var text string
 	switch src {
 	case "valid":
 		text = gen.RenderNoisy(t, gen.GenSyntaxJournal(t, 12, true))
 	case "mutated":
 		text = gen.Mutate(t, gen.RenderNoisy(t, gen.GenSyntaxJournal(t, 8, true)))
+	case "bom":
+		// a byte order mark (or other invisible prefix) in front of an otherwise valid journal
+		prefix := rapid.SampledFrom([]string{"\xef\xbb\xbf", "\xef\xbb\xbf", "\ufeff\ufeff", "\xff\xfe", "\u200b", "\x00"}).Draw(t, "prefix")
+		text = prefix + gen.RenderNoisy(t, gen.GenSyntaxJournal(t, 6, true))
 	case "soup":
 		text = gen.TokenSoup(t)
 	default:
